@@ -9,6 +9,7 @@ import (
 	"errors"
 	"fmt"
 	"net"
+	"sync"
 
 	"github.com/cnotch/ipchub/config"
 	"github.com/cnotch/ipchub/media"
@@ -65,10 +66,11 @@ func (s *tcpPushStream) WritePacket(p *RTPPack) error {
 
 type tcpConsumer struct {
 	*Session
-	closed   bool
-	source   *media.Stream
-	cid      media.CID
-	answered chan struct{} // closed once the PLAY response has been written
+	closed    bool
+	closeOnce sync.Once
+	source    *media.Stream
+	cid       media.CID
+	answered  chan struct{} // closed once the PLAY response has been written
 }
 
 func (c *tcpConsumer) Consume(p Pack) {
@@ -103,25 +105,28 @@ func (c *tcpConsumer) Consume(p Pack) {
 	}
 }
 
+// Close is called by the delivery goroutine (a write to the client failed) and
+// by the session's clean-up, possibly at the same time: only one of them may
+// stop the consumption and forget the stream
 func (c *tcpConsumer) Close() error {
-	if c.closed {
-		return nil
-	}
-	verifPoint("consumer.close.checked", c.Session)
-	c.closed = true
-	c.source.StopConsume(c.cid)
-	c.source = nil
+	c.closeOnce.Do(func() {
+		verifPoint("consumer.close.checked", c.Session)
+		c.closed = true
+		c.source.StopConsume(c.cid)
+		c.source = nil
+	})
 	return nil
 }
 
 type udpConsumer struct {
 	*Session
-	closed   bool
-	source   *media.Stream
-	cid      media.CID
-	udpConn  *net.UDPConn // 用于Player的UDP单播
-	destAddr [rtpChannelCount]*net.UDPAddr
-	answered chan struct{} // closed once the PLAY response has been written
+	closed    bool
+	closeOnce sync.Once
+	source    *media.Stream
+	cid       media.CID
+	udpConn   *net.UDPConn // 用于Player的UDP单播
+	destAddr  [rtpChannelCount]*net.UDPAddr
+	answered  chan struct{} // closed once the PLAY response has been written
 }
 
 func (c *udpConsumer) Consume(p Pack) {
@@ -142,15 +147,14 @@ func (c *udpConsumer) Consume(p Pack) {
 }
 
 func (c *udpConsumer) Close() error {
-	if c.closed {
-		return nil
-	}
-	verifPoint("consumer.close.checked", c.Session)
-	c.closed = true
+	c.closeOnce.Do(func() { // see tcpConsumer.Close
+		verifPoint("consumer.close.checked", c.Session)
+		c.closed = true
 
-	c.source.StopConsume(c.cid)
-	c.udpConn.Close()
-	c.source = nil
+		c.source.StopConsume(c.cid)
+		c.udpConn.Close()
+		c.source = nil
+	})
 	return nil
 }
 
